@@ -68,72 +68,192 @@ def dec_tokctx(p, res):
 
 
 # ------------------------------------------------------------- PIN-WRAPTEXT
+def _cmp_atoms(conds):
+    """normalise integer comparison atoms of a path:  {(expr, op, other)} with op in <,<=,==,!= and `a > b` turned into `b < a`"""
+    out = set()
+    for src, pol in conds:
+        try:
+            e = ast.parse(src.split('@')[0], mode='eval').body
+        except SyntaxError:
+            continue
+        if isinstance(e, ast.Compare) and len(e.ops) == 1:
+            l, r, op = src_of(e.left), src_of(e.comparators[0]), type(e.ops[0])
+            if not pol:
+                op = {ast.Lt: ast.GtE, ast.GtE: ast.Lt, ast.Gt: ast.LtE, ast.LtE: ast.Gt, ast.Eq: ast.NotEq, ast.NotEq: ast.Eq, ast.Is: ast.IsNot, ast.IsNot: ast.Is}.get(op)
+            if op in (ast.Gt, ast.GtE):
+                l, r, op = r, l, {ast.Gt: ast.Lt, ast.GtE: ast.LtE}[op]
+            if op is not None:
+                out.add((l, {ast.Lt: '<', ast.LtE: '<=', ast.Eq: '==', ast.NotEq: '!=', ast.Is: 'is', ast.IsNot: 'is not'}.get(op, '?'), r))
+        else:
+            out.add((src_of(e), 'true' if pol else 'false', ''))
+    return out
+
+
 @rule('PIN-WRAPTEXT', 'N', 'wrap text: sources of the inserted text and the search for the closest implicit repeater')
 def pin_wraptext(p, res):
+    from .. import shape, sympath
+    from ..pattern import match_expr, match_stmt
     cv = p.func('abbreviation.convert.convert')
-    joins = find_expr("'\\n'.join($x).strip()", cv.node)
-    if len(joins) == 1 and src_of(joins[0][1]['x']) == 'text':
-        res.ok("whole-text insertion joins the original lines: '\\n'.join(text).strip()")
-    else:
-        res.bad(F('PIN-WRAPTEXT', cv, joins[0][0] if joins else cv.node, src_of(joins[0][0]) if joins else "'\\n'.join(text).strip()",
-                  'without an implicit repeater the whole supplied text (all lines, blank ones included) is inserted once'))
-    s = src_of(cv.node)
-    if "text = params.get('text')" in s and 'if text is not None and (not state._text_inserted)' in s and 'insert_text(deepest, tx)' in s:
-        res.ok('inserted once into the deepest last element when no implicit repeater consumed it')
-    else:
-        res.bad(F('PIN-WRAPTEXT', cv, cv.node, 'whole-text insertion guard', 'text is inserted by convert() exactly when it was given and no implicit repeater inserted it'))
+    T = "params.get('text')" if cv.params[1:2] == ['params'] else None
+    try:
+        cpaths = sympath.feasible(sympath.summaries(p, cv, inline=True, select=lambda call, g: g.name not in ('insert_text', 'deepest_node', 'insert_href')))
+    except sympath.Unsupported as e:
+        cpaths = []
+        res.undecided('convert()', str(e))
+    n_ins = 0
+    for q in cpaths if T else []:
+        for sym, n, conds in q.events:
+            if not (isinstance(n, ast.Call) and src_of(n.func) == 'insert_text' and len(n.args) == 2):
+                continue
+            n_ins += 1
+            tx = sympath.unsnap(n.args[1], q.snaps)
+            cd = {sympath.unsnap(ast.parse(a.split('@')[0], mode='eval').body, q.snaps): pol for a, pol in conds}
+            cd = {src_of(k): v for k, v in cd.items()}
+            islist = cd.get('isinstance(%s, list)' % T)
+            if islist is True:
+                b = match_expr("'\\n'.join($t).strip()", tx)
+                j = [m for m in ast.walk(tx) if isinstance(m, ast.Call) and isinstance(m.func, ast.Attribute) and m.func.attr == 'join' and m.args]
+                if b is not None and src_of(b['t']) == T:
+                    res.ok("whole-text insertion joins the original lines: '\\n'.join(text).strip()")
+                elif j and 'clean_text' in src_of(j[0].args[0]):
+                    res.bad(F('PIN-WRAPTEXT', cv, cv.node, 'insert_text(.., %s)' % src_of(tx), 'without an implicit repeater the whole supplied text (all lines, blank ones included) is inserted once; this joins the blank-stripped lines'))
+                elif j and isinstance(j[0].func.value, ast.Constant) and j[0].func.value.value != '\n':
+                    res.bad(F('PIN-WRAPTEXT', cv, cv.node, 'insert_text(.., %s)' % src_of(tx), 'the supplied lines are joined by a newline'))
+                else:
+                    res.undecided('insert_text(.., %s)' % src_of(tx), 'whole-text expression (list) not recognised')
+            elif islist is False:
+                if src_of(tx) in ("%s.strip() or ''" % T, '%s.strip()' % T) or (src_of(tx) == "''" and cd.get('%s.strip()' % T) is False):
+                    res.ok('string text is inserted trimmed')
+                else:
+                    res.undecided('insert_text(.., %s)' % src_of(tx), 'whole-text expression (string) not recognised')
+            else:
+                res.undecided('insert_text(.., %s)' % src_of(tx), 'insertion does not depend on isinstance(text, list)')
+            given = cd.get(T + ' is not None') is True or cd.get(T + ' is None') is False
+            once = any(k.endswith('._text_inserted') and v is False for k, v in cd.items())
+            if given and once:
+                res.ok('inserted once into the deepest last element when no implicit repeater consumed it')
+            elif cd.get(T) is True and not given:
+                res.bad(F('PIN-WRAPTEXT', cv, cv.node, 'if %s' % T, "the text is inserted when it is truthy, not when it was given: an empty wrap text ('' or []) is skipped although it was supplied"))
+            elif given and not once:
+                res.bad(F('PIN-WRAPTEXT', cv, cv.node, 'insert_text(.., %s) [%s]' % (src_of(tx), q.cond_str()), 'the whole text is inserted even when an implicit repeater already consumed it (text appears twice)'))
+            else:
+                res.undecided('guard of the whole-text insertion', 'text is not None and not state._text_inserted')
+    if T is None or not n_ins:
+        res.undecided('convert(): insertion of the whole text', 'no path calls insert_text')
     st = p.cls('abbreviation.convert.ConvertState')
     init = st.methods['__init__']
-    if 'self.clean_text = [l for l in text if l.strip()]' in src_of(init.node):
-        res.ok('clean_text = non-blank lines')
-    else:
-        res.bad(F('PIN-WRAPTEXT', init, init.node, 'self.clean_text = [l for l in text if l.strip()]', 'implicit repeaters count the non-blank lines'))
+    tparam = init.params[1] if len(init.params) > 1 else 'text'
+    try:
+        ipaths = sympath.feasible(sympath.summaries(p, init, inline=True))
+    except sympath.Unsupported as e:
+        ipaths = []
+    seen = 0
+    for q in ipaths:
+        for tgt, val, conds in q.stores:
+            if src_of(tgt) != 'self.clean_text':
+                continue
+            seen += 1
+            islist = dict(conds).get('isinstance(%s, list)' % tparam)
+            if islist is True:
+                b = match_expr('[$l for $l in %s if $l.strip()]' % tparam, val)
+                if b is not None:
+                    res.ok('clean_text = non-blank lines (for a list)')
+                elif src_of(val) == tparam:
+                    res.bad(F('PIN-WRAPTEXT', init, init.node, 'self.clean_text = %s' % src_of(val), 'implicit repeaters count the non-blank lines: blank lines must be filtered out'))
+                elif isinstance(val, ast.ListComp) and not val.generators[0].ifs:
+                    res.bad(F('PIN-WRAPTEXT', init, init.node, 'self.clean_text = %s' % src_of(val), 'implicit repeaters count the non-blank lines: blank lines must be filtered out'))
+                else:
+                    res.undecided('self.clean_text = %s' % src_of(val), 'non-blank line filter not recognised')
+            elif islist is False:
+                if src_of(val) == tparam:
+                    res.ok('clean_text = text (for a string)')
+                else:
+                    res.undecided('self.clean_text = %s' % src_of(val), 'string case')
+            else:
+                res.undecided('self.clean_text = %s' % src_of(val), 'assignment does not depend on isinstance(text, list)')
+    if not seen:
+        res.undecided('ConvertState.clean_text', 'no store found')
+    # get_text(i): for a list, every i in 0..len(clean)-1 (0 included) yields clean_text[i].strip()
     gt = st.methods['get_text']
-    ifs = [n for n in gt.body_nodes() if isinstance(n, ast.If) and any(isinstance(x, ast.Return) and src_of(x.value) == 'self.clean_text[pos].strip()' for x in n.body)]
-    cj = sorted(c for c, pol in conjuncts(ifs[0].test, True) if pol) if len(ifs) == 1 else None
-    if cj == sorted(['pos is not None', 'pos >= 0', 'pos < len(self.clean_text)']):
-        res.ok('get_text(i) = i-th non-blank line, trimmed (index 0 included)')
-    else:
-        res.bad(F('PIN-WRAPTEXT', gt, ifs[0] if ifs else gt.node, src_of(ifs[0].test) if ifs else 'range guard of get_text',
-                  'line i (0 included) of the non-blank lines, trimmed: the guard must be `pos is not None and pos >= 0 and pos < len(clean_text)`, not the truthiness of pos'))
+    pos = gt.params[1] if len(gt.params) > 1 else 'pos'
+    try:
+        gpaths = sympath.feasible(sympath.summaries(p, gt, inline=True))
+    except sympath.Unsupported:
+        gpaths = []
+    line = [q for q in gpaths if q.ret is not None and match_expr('self.clean_text[%s].strip()' % pos, q.ret) is not None]
+    if not line:
+        res.undecided('get_text', 'no path returns clean_text[pos].strip()')
+    for q in line:
+        atoms = _cmp_atoms(q.conds)
+        want = {('isinstance(self.text, list)', 'true', ''), (pos, 'is not', 'None'), ('0', '<=', pos), (pos, '<', 'len(self.clean_text)')}
+        extra = atoms - want
+        missing = want - atoms
+        if not extra and not missing:
+            res.ok('get_text(i) = i-th non-blank line, trimmed (index 0 included)')
+        elif (pos, 'true', '') in extra:
+            res.bad(F('PIN-WRAPTEXT', gt, gt.node, q.cond_str(), 'line i (0 included) of the non-blank lines, trimmed: the guard tests the truthiness of the index, so line 0 is taken from the raw text instead'))
+        elif missing & {('0', '<=', pos), (pos, '<', 'len(self.clean_text)')} and not extra:
+            res.bad(F('PIN-WRAPTEXT', gt, gt.node, q.cond_str(), 'clean_text is indexed without the range check `0 <= pos < len(clean_text)`: IndexError / wrong line for a surplus copy'))
+        else:
+            res.undecided('get_text guard: %s' % q.cond_str(), 'expected: list text, pos is not None, 0 <= pos < len(clean_text)')
     cs = p.func('abbreviation.convert.convert_statement')
-    s = src_of(cs.node)
-    if 'if repeat.implicit and isinstance(state.text, list):\n            repeat.count = len(state.clean_text)' in s and 'insert_text(deepest, state.get_text(repeat.value))' in s:
-        res.ok('implicit repeater: one copy per non-blank line, line i into copy i')
+    VS = shape.View(p, cs, keep=('insert_text', 'deepest_node'))
+    if VS.find_stmt('$r.count = len($s.clean_text) if $r.implicit and isinstance($s.text, list) else $r.count or 1'):
+        res.ok('implicit repeater: one copy per non-blank line')
     else:
-        res.bad(F('PIN-WRAPTEXT', cs, cs.node, 'implicit repeater count / text', 'X* makes one copy per non-blank line and inserts line i into copy i'))
+        res.undecided('implicit repeater count', 'len(clean_text) for implicit repeaters over a list, else count or 1')
+    it = [c for c in VS.calls('insert_text') if len(c.args) == 2]
+    if len(it) == 1 and match_expr('$s.get_text($r.value)', it[0].args[1]) is not None:
+        res.ok('line i goes into copy i: insert_text(deepest, state.get_text(repeat.value))')
+    else:
+        res.undecided('insert_text in the copy loop', 'insert_text(deepest, state.get_text(repeat.value))')
     # closest implicit repeater: the search runs over all repeaters, innermost first, and stops only at an implicit one
     rp = p.func('abbreviation.stringify.RepeaterPlaceholder')
-    loops = [n for n in rp.body_nodes() if isinstance(n, ast.For)]
-    ok = False
-    if len(loops) == 1 and len(loops[0].body) == 1 and isinstance(loops[0].body[0], ast.If):
-        iff = loops[0].body[0]
-        lv = src_of(loops[0].target)
-        ok = src_of(iff.test) == '%s.implicit' % lv and any(isinstance(x, ast.Break) for x in iff.body) and not iff.orelse \
-            and not any(isinstance(x, ast.Break) for x in loops[0].body if x is not iff)
-    if ok:
-        res.ok('$#: loop over all repeaters, break only inside `if r.implicit`')
+    VR = shape.View(p, rp)
+    loops = [n for n in VR.nodes if isinstance(n, ast.For)]
+    if len(loops) != 1:
+        res.undecided('RepeaterPlaceholder', 'one search loop expected')
     else:
-        res.bad(F('PIN-WRAPTEXT', rp, loops[0] if loops else rp.node, src_of(loops[0]).replace('\n', ' ; ') if loops else 'search loop',
-                  '$# takes the text of the closest *implicit* repeater: the search must continue past explicit repeaters (break only when r.implicit)'))
-    s = src_of(rp.node)
-    if ('repeater_list = state.repeaters[:]' in s and 'repeater_list.reverse()' in s) or 'reversed(state.repeaters)' in s:
-        res.ok('search order: innermost repeater first')
-    else:
-        res.bad(F('PIN-WRAPTEXT', rp, rp.node, 'order of the repeater search', 'innermost first'))
+        lp = loops[0]
+        lv = src_of(lp.target)
+        brk = [x for x in ast.walk(lp) if isinstance(x, ast.Break)]
+        stray = [x for x in brk if ('%s.implicit' % lv, True) not in VR.facts(x, expand_defs=False)]
+        if brk and not stray:
+            res.ok('$#: loop over all repeaters, break only inside `if r.implicit`')
+        elif stray:
+            res.bad(F('PIN-WRAPTEXT', rp, stray[0], src_of(lp).replace('\n', ' ; '),
+                      '$# takes the text of the closest *implicit* repeater: the search must continue past explicit repeaters (break only when r.implicit)'))
+        else:
+            res.undecided(src_of(lp).replace('\n', ' ; '), 'search loop not recognised')
+        its = VR.x(lp.iter)
+        rev_call = any(isinstance(n, ast.Call) and isinstance(n.func, ast.Attribute) and n.func.attr == 'reverse' and src_of(n.func.value) == src_of(lp.iter) for n in VR.nodes)
+        if its == 'reversed(state.repeaters)' or (its in ('state.repeaters[:]', 'list(state.repeaters)', 'state.repeaters.copy()') and rev_call) or its == 'state.repeaters[::-1]':
+            res.ok('search order: innermost repeater first')
+        elif its in ('state.repeaters', 'state.repeaters[:]', 'list(state.repeaters)') and not rev_call:
+            res.bad(F('PIN-WRAPTEXT', rp, lp, 'for %s in %s' % (lv, its), 'the closest implicit repeater is wanted: the search must go innermost first'))
+        elif its == 'state.repeaters' and rev_call:
+            res.bad(F('PIN-WRAPTEXT', rp, lp, 'state.repeaters.reverse()', 'the shared repeater stack is reversed in place'))
+        else:
+            res.undecided('for %s in %s' % (lv, its), 'order of the repeater search')
     # the parse options: maxRepeat plumbing is exact
     mp = p.func('markup.parse')
-    d = [n for n in mp.body_nodes() if isinstance(n, ast.Dict)]
+    VM = shape.View(p, mp)
     mr = None
-    for dd in d:
+    for dd in [n for n in VM.nodes if isinstance(n, ast.Dict)]:
         for k, v in zip(dd.keys, dd.values):
-            if p.try_const(mp, k) == 'max_repeat':
+            if k is not None and p.try_const(mp, k) == 'max_repeat':
                 mr = v
-    if mr is not None and src_of(mr) == "config.get('maxRepeat') or config.get('max_repeat')":
+    mrs = VM.x(mr) if mr is not None else None
+    if mrs == "config.get('maxRepeat') or config.get('max_repeat')":
         res.ok("max_repeat = config.get('maxRepeat') or config.get('max_repeat') (no second default)")
-    else:
-        res.bad(F('PIN-WRAPTEXT', mp, mr or mp.node, "'max_repeat': %s" % (src_of(mr) if mr is not None else '?'),
+    elif mr is not None and isinstance(VM.xe(mr), ast.BoolOp) and isinstance(VM.xe(mr).op, ast.Or) and \
+            any(isinstance(p.try_const(mp, x), int) and not isinstance(p.try_const(mp, x), bool) for x in VM.xe(mr).values):
+        res.bad(F('PIN-WRAPTEXT', mp, mr, "'max_repeat': %s" % mrs,
                   'the repeat limit must be passed through unchanged; the only default lives in ConvertState (a second default silently caps large abbreviations)'))
+    elif mr is not None and 'maxRepeat' not in mrs:
+        res.bad(F('PIN-WRAPTEXT', mp, mr, "'max_repeat': %s" % mrs, 'the documented option maxRepeat no longer reaches the converter'))
+    else:
+        res.undecided("'max_repeat': %s" % mrs, 'maxRepeat plumbing not recognised')
     res.require_floor(8)
 
 
